@@ -77,6 +77,19 @@ def check(ctx):
         flat = "".join("let d%d = num;\n" % i for i in range(3000 if ctx.thorough else 2200))
         reqs.append({"text": flat + texts.nested(5, "{ 'p ", " }", "num"), "uncached": False})
         reqs.append({"text": "let a = { 'p { 'p {} } };\nlet b = { 'p { 'p { 'p num } } };\n", "uncached": True})
+    if not ctx.replay:
+        ok, out = core.ensure_runner()
+        if not ok:
+            ctx.broken.append("runner build failed: " + out[-300:])
+        else:
+            from . import pegtie
+            small = [r for r in reqs if ("kinds" in r and len(r["kinds"]) <= 40) or ("text" in r and len(r["text"]) < 400 and r.get("uncached"))]
+            small = small[:: max(1, len(small) // (6000 if ctx.thorough else 2500))]
+            bad = pegtie.compare(small)
+            for what, rq, i, m in bad[:10]:
+                ctx.broken.append("L2 disagreement (%s): %s impl=[%s] model=[%s]" % (what, json.dumps(rq)[:200], i, m))
+            ctx.count("peg_tie_cases", len(small))
+            ctx.count("peg_tie_disagreements", len(bad))
     lines = [json.dumps(dict(r, tree=False)) for r in reqs]
     outs = core.run_stateless(core.IMPL, "syntax", lines, timeout=40, per_case_timeout=10)
     worst = 0.0
